@@ -34,6 +34,14 @@ func plainWire(v any) W {
 			m[k] = plainWire(e)
 		}
 		return map[string]any{"m": m}
+	case map[any]any:
+		// yaml.v3 yields this for mappings with non-string keys; keys are stringified as the
+		// repaired decoder does (fmt.Sprint)
+		m := map[string]any{}
+		for k, e := range x {
+			m[fmt.Sprint(k)] = plainWire(e)
+		}
+		return map[string]any{"m": m}
 	case []any:
 		l := make([]any, len(x))
 		for i, e := range x {
@@ -43,6 +51,27 @@ func plainWire(v any) W {
 	default:
 		return scalarWire(v)
 	}
+}
+
+// plainHasNonStringKeys reports whether a decoded value contains a map with non-string keys.
+func plainHasNonStringKeys(v any) bool {
+	switch x := v.(type) {
+	case map[any]any:
+		return true
+	case map[string]any:
+		for _, e := range x {
+			if plainHasNonStringKeys(e) {
+				return true
+			}
+		}
+	case []any:
+		for _, e := range x {
+			if plainHasNonStringKeys(e) {
+				return true
+			}
+		}
+	}
+	return false
 }
 
 // nodeWire walks a DOM node directly (Children / Items / Value), independent of AsMap.
